@@ -197,10 +197,12 @@ def replay(ctx: Ctx, obj):
     if res is not None:
         certify_results(ctx, [(pb, res)])
     if not ctx.violations and obj.get("formula") and obj.get("tree") is not None:
+        # the property is about what solve() RETURNS: a recorded tree the solver no longer returns is not a violation of
+        # the current code; its certifier verdict is shown for information only
         t = plain(obj["tree"])
-        fake = {"formula": obj["formula"], "grammar_used": obj.get("grammar_used"), "const": "start", "calls": [{"outcome": "tree", "tree": t}]}
-        print("replay: the re-run did not reproduce the solution; re-certifying the recorded tree")
-        certify_results(ctx, [(pb, fake)])
+        gs = enc(G.grammar_sexp(obj.get("grammar_used") or pb["grammar"]))
+        a = drive([f"(sem certify {gs} {enc(T.to_sexp(t))} {obj['formula']} {enc(pb.get('start_symbol') or '<start>')} {enc('start')} {T.size(t) + 16})"])[0]
+        print(f"replay: re-running the recorded problem (same settings and random seed) did not return a rejected tree; the recorded tree {T.tree_str(t)!r} itself gets (valid, closed, root, verdict) = {a} from the certifier")
 
 
 def plain(t):
